@@ -12,6 +12,7 @@ import io
 import itertools
 import json
 import logging
+import os
 
 from mc.run import Result, h64
 from models import las_ref as L
@@ -190,13 +191,33 @@ def _lasread():
     return LASRead
 
 
-def observe(text, content):
+_PATH = None
+
+
+def _scratch_path():
+    global _PATH
+    if _PATH is None:
+        from mc import seams
+        os.makedirs(seams.SCRATCH, exist_ok=True)
+        _PATH = os.path.join(seams.SCRATCH, 'c09-%d.las' % os.getpid())
+        import atexit
+        atexit.register(lambda: os.path.exists(_PATH) and os.remove(_PATH))
+    return _PATH
+
+
+def observe(text, content, by_path=False):
     """Parse `text` with the implementation.  Returns (obs, exc): obs is a flat dict in the key space of
-    las_ref.expected() (or None), exc is (type name, message) when the reader raised."""
+    las_ref.expected() (or None), exc is (type name, message) when the reader raised.
+    by_path: the text is written to a file (bytes as they are, ASCII) and the reader is given the path."""
     import numpy as np
     LASRead = _lasread()
     try:
-        las = LASRead.LASRead(io.StringIO(text), 'C09')
+        if by_path:
+            with open(_scratch_path(), 'w', newline='', encoding='ascii') as f:
+                f.write(text)
+            las = LASRead.LASRead(_scratch_path(), 'C09')
+        else:
+            las = LASRead.LASRead(io.StringIO(text), 'C09')
     except Exception as err:  # the property defines the result for every generated text: raising is a violation
         return None, (type(err).__name__, str(err))
     obs = {}
@@ -418,6 +439,15 @@ def check_case(content, layout, canon=None, text=None):
             if k not in seen:
                 seen.add(k)
                 found.append((sig, msg))
+    if L.n_deviations(layout) <= 1 and ev['obs'] is not None and not _hijacked(ev['obs']) and all(ord(c) < 128 for c in ev['text']):
+        # the reader given the path of a file holding the same characters reads the same content
+        obs2, exc2 = observe(ev['text'], content, by_path=True)
+        if exc2 is not None or obs2 != ev['obs']:
+            keys = [] if obs2 is None else sorted((k for k in set(obs2) | set(ev['obs']) if obs2.get(k) != ev['obs'].get(k)), key=repr)[:4]
+            sig = {'kind': 'path_read_differs_from_stream_read', 'oracle': 'differential', 'raised': exc2[0] if exc2 else None}
+            if json.dumps(sig, sort_keys=True) not in seen:
+                found.append((sig, 'the same text read through a file path: %s' % (
+                    'reader raised %s: %s' % exc2 if exc2 else '; '.join('%r is %r by path, %r from the stream' % (k, obs2.get(k), ev['obs'].get(k)) for k in keys))))
     outcome = h64(repr(sorted(ev['obs'].items(), key=repr)) if ev['obs'] is not None else repr(ev['exc']))
     return found, outcome, ev
 
@@ -489,7 +519,7 @@ def data_layouts(content, tier, full):
                 seen.add(t)
                 lays.append(lay)
         return lays
-    lays = [{}] + [{k: v} for k, v in L.DEVIATIONS if (k in DATA_DIMS or k == 'eol') and L.relevant((k, v), content)]
+    lays = [{}] + [{k: v} for k, v in L.DEVIATIONS if (k in DATA_DIMS or k in ('eol', 'nl')) and L.relevant((k, v), content)]
     lays += [{'wrap': w, 'sep': s} for w in ('all', 2) for s in ('\t', '  \t ') if L.relevant(('wrap', w), content)]
     return lays
 
@@ -557,7 +587,7 @@ def run_shard(shard, tier):
     elif fam == 'tail':
         # the end of the text: lines of one or two characters, with and without the final newline, wrapped or not
         ncur = shard['ncur']
-        dims = {'wrap': [None, 'all', 1, 2], 'eol': [True, False], 'dlead': ['', ' '], 'dtrail': ['', ' '], 'sep': [' ', '\t']}
+        dims = {'wrap': [None, 'all', 1, 2], 'eol': [True, False], 'dlead': ['', ' '], 'dtrail': ['', ' '], 'sep': [' ', '\t'], 'nl': ['\n', '\r\n']}
         for nfr in (1, 2, 3):
             for digits in (['1', '2', '3', '4', '5', '6', '7', '8', '9'], ['-1', '0', '1', '2', '-3', '4', '5', '6', '7']):
                 frames = [[digits[f]] + [digits[3 + (f * (ncur - 1) + c) % 6] for c in range(ncur - 1)] for f in range(nfr)]
@@ -568,7 +598,7 @@ def run_shard(shard, tier):
     elif fam == 'product':
         content = shape_content(**(SMALLEST if shard['content'] == 'smallest' else SMALL22))
         dims = {'lead': [shard['lead']], 'predot': [shard['predot']], 'precolon': [shard['precolon']],
-                'uv': [1, 7], 'trail': [0, 1, 7], 'eol': [True, False]}
+                'uv': [1, 7], 'trail': [0, 1, 7], 'eol': [True, False], 'nl': ['\n', '\r\n']}
         if tier == 'quick':
             dims.update({'postcolon': [1, 0, 7], 'wrap': [None, 'all'], 'dlead': ['', '\t '], 'dtrail': ['', ' \t'],
                          'titles': ['long', 'short']})
